@@ -3,7 +3,7 @@ Q_HEADER = "From KV Require Import base.Tac queue.Queue queue.QueueCheck.\nOpen 
 
 PROP = {
     'translators': ['t_queue'],
-    'coq_targets': ['props/C09.vo', 'queue/QueueCheck.vo'],
+    'coq_targets': ['props/C09.vo', 'queue/QueueCheck.vo', 'queue/TaskName.vo'],
     'props_file': 'props/C09.v',
     'checker_vo': 'queue/QueueCheck.vo',
     'scenario': 'c09',
@@ -11,7 +11,7 @@ PROP = {
     'extra': {'quick': {'sequences': 400}, 'thorough': {'sequences': 8000}},
     'replay_header': Q_HEADER,
     'replay_footer': "Eval vm_compute in (failing agrees base_index cases).\nEval vm_compute in (failing c09_ok base_index cases).",
-    'stats_keys': ['sequences'],
+    'stats_keys': ['sequences', 'task_name_pairs_checked'],
     'assumptions': [
         'the key-value store lists keys in arbitrary order (model: all outcomes); clock readings are only compared through an order-preserving renaming',
         'OS process death is modelled as "the in-memory TaskQueue is dropped, the stored keys survive" (restart op); mutations of one store.execute are not cut here (C08 covers cut points)',
